@@ -1,1 +1,10 @@
-package hdf5
+// Package hdf5 is a pure-Go stand-in ("fakehdf5") for gonum.org/v1/hdf5.
+//
+// It mirrors the exported names, signatures and documented semantics of the
+// subset of the real cgo package that github.com/flowmatters/openwater-core
+// uses, without needing libhdf5.  Files are persisted in a private format
+// (see README.md), NOT in the genuine HDF5 format.
+//
+// Everything in ext.go and trace.go is an EXTENSION for the verification
+// harness and is not part of the real gonum API.
+package hdf5 // import "gonum.org/v1/hdf5"
